@@ -39,7 +39,7 @@ func rulesC10(w *World, o *Out) {
 	if cns != nil {
 		o.Analysed(w.FuncKey(cns))
 		nAdm := 0
-		for _, g := range WithAnon(cns) {
+		for _, g := range unitFuncs(cns) {
 			for _, b := range g.Blocks {
 				for _, in := range b.Instrs {
 					c, ok := in.(*ssa.Call)
@@ -91,13 +91,18 @@ func rulesC10(w *World, o *Out) {
 					if n, _ := loadedField(c.Call.Args[0]); n == "TotalShares" {
 						if a, isA := canon(c.Call.Args[1]).(*ssa.Call); isA && a.Call.Method != nil && a.Call.Method.Name() == "GetBondedTokens" {
 							ok = true
+						} else if nm, _ := loadedField(c.Call.Args[1]); nm == "ShareCount" && fl.DependsOnCall(c.Call.Args[1], isCallee("", "", "GetBondedTokens")) != nil {
+							// the share recorded on the entry just built (itself GetBondedTokens, checked above)
+							ok = true
 						}
 					}
 				}
 				// same loop as the entry append
 				sameLoop := false
 				for _, ss := range shareStores {
-					if loopHeaderOf(ss.Block()) != nil && loopHeaderOf(ss.Block()) == loopHeaderOf(st.Block()) {
+					// the entry may be built in a helper called from the loop: compare the loop of the call
+					sb, tb := normFrom(cns, ss).Block(), normFrom(cns, st).Block()
+					if loopHeaderOf(sb) != nil && loopHeaderOf(sb) == loopHeaderOf(tb) {
 						sameLoop = true
 					}
 				}
@@ -228,7 +233,7 @@ func rulesC10(w *World, o *Out) {
 	if gcs := w.MustFunc(o, vsk, "Keeper", "GetCurrentSnapshot"); gcs != nil {
 		ok := false
 		for _, s := range CallsIn(gcs) {
-			if s.Callee.Name == "Load" {
+			if s.Callee.Name == "Load" || s.Callee.Name == "FindSnapshotByID" {
 				args := s.Args()
 				if fl.DependsOnCall(args[len(args)-1], isCallee("util/keeper", "IDGenerator", "GetLastID")) != nil {
 					ok = true
@@ -314,6 +319,14 @@ func rulesC10(w *World, o *Out) {
 					for _, a := range x.Call.Args {
 						walk(a, d+1)
 					}
+					// the conversion may live in a small helper of the module: look at what it returns
+					if h := x.Call.StaticCallee(); h != nil && h.Blocks != nil && strings.HasPrefix(funcPkgPath(h), modPath) {
+						for _, r := range Returns(h) {
+							for _, rv := range r.Ret.Results {
+								walk(rv, d+1)
+							}
+						}
+					}
 				case *ssa.Slice:
 					walk(x.X, d+1)
 				case *ssa.Alloc:
@@ -354,12 +367,13 @@ func rulesC10(w *World, o *Out) {
 	o.Count("C10.R4 UpdateValset send sites", len(senders), 2)
 	gate := w.MustFunc(o, "x/evm/keeper", "", "isEnoughToReachConsensus")
 	for _, s := range senders {
-		g := GuardBool(s.Instr, func(c Callee) bool { return c.Static == gate }, true)
+		g, gf := GuardBoolFact(s.Instr, func(c Callee) bool { return c.Static == gate }, true)
 		ok := g != nil
 		if ok {
-			// same valset value
+			// same valset value (through a guard helper: the helper's parameter is the argument it was given)
 			sent := s.Args()[3]
-			ok = canon(g.Call.Args[0]) == canon(sent) || sameLoad(g.Call.Args[0], sent)
+			checked := gf.Resolve(g.Call.Args[0])
+			ok = checked == canon(sent) || sameLoad(checked, sent) || sameLoad(g.Call.Args[0], sent)
 		}
 		o.Check("C10.R4", w.FuncKey(TopFunc(s.Fn))+"|valset sent only past the quorum gate of that valset", ok, w.Pos(s.Instr.Pos()), "SendValsetMsgForChain must be dominated by isEnoughToReachConsensus(valset) == true for the valset it sends")
 	}
